@@ -98,7 +98,7 @@ func buildScenarios(c *srcChain) []*scenarioSpec {
 	rng := lib.Rand("c13-plan", 0)
 	muts := catalogue()
 	var eps []episodeSpec
-	perMut := lib.Pick(3, 14)
+	perMut := lib.Pick(3, 40) // thorough: every applicable target height of the chain
 	for _, m := range muts {
 		// targets by their relation to a validator-set change
 		byNear := map[string][]int64{}
@@ -110,7 +110,7 @@ func buildScenarios(c *srcChain) []*scenarioSpec {
 		order := []string{"at", "before", "after", "far"}
 		rng.Shuffle(len(order), func(i, j int) { order[i], order[j] = order[j], order[i] })
 		n := 0
-		for round := 0; n < perMut && round < 4; round++ {
+		for round := 0; n < perMut && round < 64; round++ {
 			for _, k := range order {
 				ts := byNear[k]
 				if len(ts) == 0 || n >= perMut {
@@ -124,7 +124,7 @@ func buildScenarios(c *srcChain) []*scenarioSpec {
 		}
 	}
 	rng.Shuffle(len(eps), func(i, j int) { eps[i], eps[j] = eps[j], eps[i] })
-	nSurg := lib.Pick(12, 72)
+	nSurg := lib.Pick(12, 160)
 	var out []*scenarioSpec
 	add := func(s *scenarioSpec) {
 		s.ID, s.Seed, s.Tier = len(out), lib.Seed(), lib.Tier()
@@ -135,9 +135,28 @@ func buildScenarios(c *srcChain) []*scenarioSpec {
 	for i := range surg {
 		surg[i] = &scenarioSpec{Kind: "surgical", Reopen: i < 2}
 	}
+	accept := map[string]bool{}
+	for _, m := range muts {
+		accept[m.name] = m.expect == "accept"
+	}
 	for i, e := range eps {
-		s := surg[i%nSurg]
-		s.Episodes = append(s.Episodes, e)
+		k := i % nSurg
+		if accept[e.Mut] {
+			// tampering that lets T through: one per target and scenario (T is applied afterwards)
+			for try := 0; try < nSurg; try++ {
+				clash := false
+				for _, o := range surg[k].Episodes {
+					if accept[o.Mut] && o.T == e.T {
+						clash = true
+					}
+				}
+				if !clash {
+					break
+				}
+				k = (k + 1) % nSurg
+			}
+		}
+		surg[k].Episodes = append(surg[k].Episodes, e)
 	}
 	for _, s := range surg {
 		add(s)
@@ -149,7 +168,7 @@ func buildScenarios(c *srcChain) []*scenarioSpec {
 			add(&scenarioSpec{Kind: "final", Episodes: []episodeSpec{{T: c.top - 1, Mut: m.name}}, Reopen: true})
 		}
 	}
-	for i := 0; i < lib.Pick(6, 60); i++ {
+	for i := 0; i < lib.Pick(6, 120); i++ {
 		add(&scenarioSpec{Kind: "mix", P: 20 + rng.Intn(50), Budget: 4 + rng.Intn(8)})
 	}
 	for i := 0; i < lib.Pick(1, 3); i++ {
